@@ -35,7 +35,7 @@ def add(src, hid):
 def run(hid, checks):
     d = os.path.join(V, 'harmless', hid)
     meta = json.load(open(os.path.join(d, 'meta.json')))
-    rc, out = sh('git -C %s status --porcelain' % REPO)
+    rc, out = sh('git -C %s status --porcelain --untracked-files=no' % REPO)
     if out.strip(): print('/repo is not clean'); return 1
     rc, out = sh('git -C %s apply %s' % (REPO, os.path.join(d, 'patch.diff')))
     if rc: print('patch does not apply to /repo:', out); return 1
